@@ -437,6 +437,16 @@ class PStr:
     def length(self):
         return PNum(z3.Length(self.z))
 
+    def startswith(self, prefix):
+        if type(prefix) is str:
+            return PBool(z3.PrefixOf(z3.StringVal(prefix), self.z))
+        raise Unsupported("startswith argument")
+
+    def endswith(self, suffix):
+        if type(suffix) is str:
+            return PBool(z3.SuffixOf(z3.StringVal(suffix), self.z))
+        raise Unsupported("endswith argument")
+
     def __getitem__(self, i):
         if type(i) is int:
             n = z3.Length(self.z)
